@@ -16,7 +16,9 @@ import (
 // union + non-union, union + union, swapped) computes the type. The declared column types are
 // built directly (tUnion / tList / tStruct), never through TypeSum.
 
-func sf(name string, t octosql.Type) octosql.StructField { return octosql.StructField{Name: name, Type: t} }
+func sf(name string, t octosql.Type) octosql.StructField {
+	return octosql.StructField{Name: name, Type: t}
+}
 
 var t3Cols = []colDef{
 	{"id", "int", octosql.Int},
@@ -87,6 +89,7 @@ func typesumItem(rng *rand.Rand, family string) string {
 		args = append(args, pool[rng.Intn(len(pool))])
 	}
 	// a scalar or a NULL literal first / in between / last turns the accumulated type into a union
+	hasScalar := false
 	switch rng.Intn(5) {
 	case 0:
 		k := rng.Intn(len(args) + 1)
@@ -94,9 +97,18 @@ func typesumItem(rng *rand.Rand, family string) string {
 	case 1:
 		k := rng.Intn(len(args) + 1)
 		args = append(args[:k], append([]string{pick("h.ns", "h.s", "h.id")}, args[k:]...)...)
+		hasScalar = true
+	}
+	for _, a := range args {
+		// union columns with a scalar alternative: no indexing / field access on the result
+		hasScalar = hasScalar || a == "h.ul" || a == "h.nul" || a == "h.uo"
 	}
 	e := "COALESCE(" + strings.Join(args, ", ") + ")"
-	switch rng.Intn(8) {
+	w := rng.Intn(8)
+	if hasScalar && (w == 0 || w == 3) {
+		w = 7
+	}
+	switch w {
 	case 0:
 		if family == "l" || family == "ll" || family == "lo" {
 			return e + "[" + pick("0", "1") + "]"
@@ -117,7 +129,12 @@ func typesumItem(rng *rand.Rand, family string) string {
 }
 
 func buildTypesumQuery(rng *rand.Rand, shape string) string {
-	fams := []string{"l", "l", "ll", "lo", "o", "o", "t"}
+	// COALESCE over non-empty tuples panics in the layout fixer (counted for C07): tuple items get
+	// queries of their own so that they do not take the other families' results with them
+	fams := []string{"l", "l", "ll", "lo", "o", "o"}
+	if rng.Intn(8) == 0 {
+		fams = []string{"t"}
+	}
 	n := 1 + rng.Intn(3)
 	var items []string
 	for i := 0; i < n; i++ {
